@@ -909,6 +909,9 @@ class VM:
 
     def _strict_equals(self, a: JSValue, b: JSValue) -> bool:
         """JavaScript === operator."""
+        # Booleans are only equal to booleans (Python's bool is an int subtype)
+        if isinstance(a, bool) != isinstance(b, bool):
+            return False
         # Different types are never equal
         if type(a) != type(b):
             # Special case: int and float
